@@ -353,6 +353,7 @@ class UnitBuild:
         self.text = ""
         self.fragments = []   # dict(origin, sha256, kind, what)
         self.harnesses = []   # dict(name, props, strength, ...)
+        self.includes = []
         self.line_origin = []  # (first_line, last_line, file, src_first_line) of extracted text in the unit
 
 
@@ -385,6 +386,13 @@ def build_unit(template_path, repo):
                 ub.fragments.append(f)
             out.append(frag_text)
             cur_line += nlines
+            continue
+        if s.startswith("//@include"):
+            inc = s.split(None, 1)[1].strip()
+            itxt = open(os.path.join(os.path.dirname(os.path.dirname(os.path.abspath(__file__))), inc), encoding="utf-8").read().rstrip("\n")
+            ub.includes.append({"file": inc, "sha256": hashlib.sha256(itxt.encode()).hexdigest()[:16]})
+            out.append(itxt)
+            cur_line += itxt.count("\n") + 1
             continue
         if s.startswith("//@harness"):
             pending_h = _parse_directive(s)
